@@ -362,6 +362,10 @@ func (p *Proxy) handleCONNECT(r responder.Responder, proxyReq *http.Request) err
 			break
 		}
 
+		// The client announced that this is its last request on the tunnel ("Connection: close",
+		// or HTTP/1.0 without keep-alive). Whatever follows the request is then not another request:
+		// net/http does not even skip the unread content of such a request when its body is closed.
+		clientCloses := req.Close
 		req.Close = true
 		// A fresh responder for every exchange: it accumulates the header set, length and status of
 		// the response it builds, and none of that may carry over to the next exchange on the tunnel.
@@ -374,6 +378,10 @@ func (p *Proxy) handleCONNECT(r responder.Responder, proxyReq *http.Request) err
 				// another exchange can follow. Close it so the client sees the failure.
 				break
 			}
+		}
+		if clientCloses {
+			slog.Debug("Closing CONNECT tunnel as the client asked", "host", proxyReq.Host)
+			break
 		}
 
 		// Content of the request that nobody read (it was answered from the cache, or refused)
